@@ -852,6 +852,43 @@ def f_nested_classes():
     return _Outer.width('b'), _Outer.ROWS[0].tag, isinstance(_Outer.ROWS[1], _Outer._Row), _Outer._Plain(3).x, _Outer._Row('z', 9).width
 
 
+class _Mask:
+    def __init__(self, m):
+        self.m = m
+
+    def __ior__(self, other):
+        self.m |= other.m
+        return self
+
+    __or__ = __ior__
+
+    def __rshift__(self, n):
+        return _Mask(self.m >> n)
+
+    def __and__(self, other):
+        if not isinstance(other, _Mask):
+            return NotImplemented
+        return _Mask(self.m & other.m)
+
+    def __rand__(self, other):
+        return _Mask(self.m & other)
+
+    def __eq__(self, other):
+        return isinstance(other, _Mask) and self.m == other.m
+
+    def __hash__(self):
+        return hash(self.m)
+
+
+def f_operator_dunders():
+    a, b = _Mask(1), _Mask(4)
+    c = a | b               # the alias of the in-place operator: a itself is changed
+    d = _Mask(0)
+    d |= _Mask(2)
+    e = (_Mask(6) >> 1)
+    return a.m, c is a, c.m, d.m, e.m, (_Mask(7) & _Mask(5)).m, (3 & _Mask(6)).m, _Mask(3) == _Mask(3), _Mask(3) != _Mask(4), len({_Mask(1), _Mask(1)})
+
+
 def f_str_bits():
     s = bin(0b101101)[2:]
     return s, s.zfill(8), int(s[::-1], 2), s.count('1'), s.rfind('1'), s[:3] + '0' * 2, '{:08b}'.format(5), f'{5:08b}'[-3:], ''.join('1' if c == '0' else '0' for c in s)
